@@ -10,6 +10,7 @@ import (
 	"strings"
 	"sync"
 	"sync/atomic"
+	"testing/synctest"
 	"time"
 
 	"github.com/ozontech/file.d/pipeline"
@@ -57,29 +58,29 @@ type evState struct {
 
 // Result is what a run reports.
 type Result struct {
-	Failures      []Failure
-	History       []H
-	Quiesced      bool
-	Accepted      int
-	Committed     int
-	Dropped       int
-	MaxInFlight   int
-	Inversions    int // a later send returned before an earlier one
-	DropBehind    int // a drop happened while an earlier event of the same stream was unresolved
-	RetriesSeen   int
-	GiveUps       int
-	DQDelivered   int
-	Timeouts      int
-	HeldFlushed   int
+	Failures           []Failure
+	History            []H
+	Quiesced           bool
+	Accepted           int
+	Committed          int
+	Dropped            int
+	MaxInFlight        int
+	Inversions         int // a later send returned before an earlier one
+	DropBehind         int // a drop happened while an earlier event of the same stream was unresolved
+	RetriesSeen        int
+	GiveUps            int
+	DQDelivered        int
+	Timeouts           int
+	HeldFlushed        int
 	ConstraintsDropped int
 	ConcurrentStreams  bool
-	Splits        int
-	PoolInUseAtEnd int64
-	PoolSaturated bool
-	Elapsed       time.Duration // virtual or real
-	StreamerDump  string
-	LoggedPanic   string
-	BreakBypass   int // a "break" skipped an action that was holding an event
+	Splits             int
+	PoolInUseAtEnd     int64
+	PoolSaturated      bool
+	Elapsed            time.Duration // virtual or real
+	StreamerDump       string
+	LoggedPanic        string
+	BreakBypass        int // a "break" skipped an action that was holding an event
 	TimeoutToNonHolder int
 	FedAtHeartbeat     int // records handed to In between the heartbeat's snapshot and tryUnblock
 }
@@ -90,25 +91,27 @@ type Sim struct {
 	p    *pipeline.Pipeline
 	ctl  pipeline.InputPluginController
 
-	mu       sync.Mutex
-	seq      int64
-	ev       map[int]*evState
-	order    map[string][]int // (source|stream) -> ids in read order
+	mu               sync.Mutex
+	seq              int64
+	ev               map[int]*evState
+	order            map[string][]int // (source|stream) -> ids in read order
 	lastCommitOffset map[string]int64
 	lastCommitDQ     map[string]bool
-	hist     []H
-	fails    []Failure
-	failed   map[string]bool
-	inFlight int
-	res      Result
-	ptrOwner map[*pipeline.Event]int
-	start    time.Time
-	procsActive map[string]int
-	procActions map[pipeline.ActionPluginController][]*simAction
-	multiHold   bool
-	gateOn      bool
-	hbMu        sync.Mutex
-	hbSlot      []*pendingFeed
+	hist             []H
+	fails            []Failure
+	failed           map[string]bool
+	inFlight         int
+	res              Result
+	ptrOwner         map[*pipeline.Event]int
+	start            time.Time
+	procsActive      map[string]int
+	procActions      map[pipeline.ActionPluginController][]*simAction
+	multiHold        bool
+	inAttachStall    atomic.Int32
+	unattendedSeen   bool
+	gateOn           bool
+	hbMu             sync.Mutex
+	hbSlot           []*pendingFeed
 
 	outMain *simOutput
 	outDQ   *simOutput
@@ -461,12 +464,12 @@ type simOutput struct {
 	batcher *pipeline.RetriableBatcher
 	cancel  context.CancelFunc
 
-	mu        sync.Mutex
-	cur       map[*pipeline.Batch]*sendState
-	byEvent   map[*pipeline.Event]*sendState
-	returned  map[int]chan struct{}
-	nextK     int
-	retOrder  []int
+	mu       sync.Mutex
+	cur      map[*pipeline.Batch]*sendState
+	byEvent  map[*pipeline.Event]*sendState
+	returned map[int]chan struct{}
+	nextK    int
+	retOrder []int
 }
 
 type commitCtl struct {
@@ -818,7 +821,9 @@ func Run(plan *Plan) *Result {
 				}
 			case "streamer.join.beforeAttach":
 				if plan.AttachStallUs > 0 {
+					s.inAttachStall.Add(1)
 					time.Sleep(time.Duration(plan.AttachStallUs) * time.Microsecond)
+					s.inAttachStall.Add(-1)
 				}
 			case "pool.std.beforeWait", "pool.lowmem.beforeWait":
 				if plan.PoolWaitStallUs > 0 && !plan.Virtual {
@@ -892,6 +897,9 @@ func Run(plan *Plan) *Result {
 		if time.Since(lastProgress) > deadline || time.Since(s.start) > hardStop {
 			break
 		}
+		if plan.Virtual && !s.unattendedSeen {
+			s.checkUnattended()
+		}
 		if msgs := fdkit.TakeLoggedPanics(); len(msgs) > 0 {
 			s.mu.Lock()
 			s.note("file.d-panic", 0, msgs[0])
@@ -954,6 +962,27 @@ func Run(plan *Plan) *Result {
 	s.res.Failures = s.fails
 	s.res.History = s.hist
 	return &s.res
+}
+
+// checkUnattended (virtual time only): once every goroutine of the bubble is durably blocked, a stream
+// that waits for a processor (charged) and a processor that sleeps in joinStream cannot coexist - the
+// stream would stay unattended until some other processor happens to finish its own stream (C04: no
+// stream with pending events unattended while a processor is asleep).
+func (s *Sim) checkUnattended() {
+	sleepers := func() (int, int32) {
+		charged, procs, active := s.p.VerifStreamerLoad()
+		return charged, procs - active - s.inAttachStall.Load()
+	}
+	if c, sl := sleepers(); c == 0 || sl <= 0 {
+		return
+	}
+	synctest.Wait()
+	if c, sl := sleepers(); c > 0 && sl > 0 {
+		s.unattendedSeen = true
+		s.mu.Lock()
+		s.failf("C04", "stream-unattended-while-processor-asleep", "all goroutines are blocked, %d stream(s) with pending events wait for a processor and %d processor(s) sleep in joinStream\n%s", c, sl, s.p.VerifStreamerDump())
+		s.mu.Unlock()
+	}
 }
 
 var reNum = regexp.MustCompile(`[0-9]+`)
